@@ -8,6 +8,7 @@
    Not modelled: interleavings inside one h5py.File() call; atomicity of rename(2). *)
 From Coq Require Import ZArith List Bool.
 From DRF Require Import Base.Fs Model.WriterProto Proofs.ProtoSafety Proofs.WriterProtoProofs Proofs.ProtoReader.
+From DRF Require Import Proofs.WriterFaultProofs Proofs.WriterProtoRestart.
 Import ListNotations.
 Local Open Scope Z_scope.
 
@@ -75,3 +76,15 @@ Print Assumptions C09_reader_constructs.
 Theorem C09_reader_constructs_refuted : ~ opens_full Direct.
 Proof. exact opens_direct_refuted. Qed.
 Print Assumptions C09_reader_constructs_refuted.
+
+(* a killed recorder is restarted into the file period of its leftover tmp file (Properties/C02.v,
+   C02_restart_over_stale_tmp): a reader pass after that session returns exactly what it returned on the
+   tree the kill left -- the leftover, never completed file does not become visible *)
+Theorem C09_restart_reader_unaffected : forall F v rc s fp rest cs c cands,
+  r_calls rc = (fp :: rest) :: cs ->
+  open_channel s = true ->
+  s (PData (fp_d fp) true (fp_k fp)) = Some (File c) ->
+  s (PData (fp_d fp) false (fp_k fp)) = None ->
+  read_pass (w_fs (rs_w (wrun_on s F v rc))) cands = read_pass s cands.
+Proof. exact restart_reader_unaffected. Qed.
+Print Assumptions C09_restart_reader_unaffected.
